@@ -9,7 +9,7 @@ EXTENDS Playback
 Trace == ndJsonDeserialize("C29_trace.ndjson")
 
 VARIABLE l
-TraceInit == l = 0 /\ params = [tracks |-> "v", segs |-> <<1>>, gap |-> 0, parts |-> 1, spp |-> 1] /\ done = FALSE
+TraceInit == l = 0 /\ params = [tracks |-> "v", segs |-> <<1>>, gap |-> 0, parts |-> 1, spp |-> 1, layout |-> "chrono"] /\ done = FALSE
 TraceNext == l < Len(Trace) /\ l' = l + 1 /\ UNCHANGED vars
 TraceSpec == TraceInit /\ [][TraceNext]_<<l, vars>>
 
